@@ -103,6 +103,11 @@ func child(p *props.Prop) int {
 		fmt.Fprintln(os.Stderr, err)
 		return 3
 	}
+	props.StartCPUGuard(c, func() {
+		prog.Close()
+		rec.Finish(*fOut)
+		os.Exit(0)
+	})
 	props.RunShard(c, prog)
 	prog.Close()
 	if err := rec.Finish(*fOut); err != nil {
@@ -158,6 +163,13 @@ func replay(p *props.Prop) int {
 		fmt.Printf("INCONCLUSIVE property=%s reason=replay-phase-out-of-range\n", p.ID)
 		return 2
 	}
+	props.StartCPUGuard(c, func() {
+		for _, x := range rec.Result().Violations {
+			fmt.Printf("  %s: %s\n", x.Key, x.Msg)
+			fmt.Printf("VIOLATION property=%s replay=%s\n", p.ID, x.Replay)
+		}
+		os.Exit(1)
+	})
 	if v.Env == props.EnvOneProc {
 		runtime.GOMAXPROCS(1)
 	}
